@@ -43,6 +43,10 @@ CLAIMED = {
          "Machine-checked proof (Coq 8.16): credentials that require transport security over a non-https base URL fail the call with zero requests issued; a failing credential fails the call with zero requests; otherwise for every key the handler sees the caller's values followed by the credential's; with no credentials nothing changes; the peer carries TLS auth info iff the connection uses TLS and the scheme's default port when none is given. Tied to the code by running the whole finite configuration space {http, https, in-process} x {unary, stream} x {no creds, five credential maps (empty, disjoint, overlapping) x {requiring security or not}, failing credentials} x {peer option or not} against real servers (httptest plain and TLS) with a counting RoundTripper, observing the handler's metadata and peer and the grpc.Peer option.",
          "Trusted: Coq kernel; metadata.Join/New semantics modelled by hand (credential keys distinct and lower-case); TLS itself is not modelled (connection state is an input).",
          "7/C13"),
+ "C11": ("Coq theorems over a total model of the HTTP handlers' gate-keeping with content types regenerated from protocol_versions.go + request grammar through the real handlers",
+         "Machine-checked proof (Coq 8.16): for EVERY request (method, media type, header validity, body validity) and every handler outcome the application code runs at most once and only if the method is POST, the content type is one that kind supports and the headers decode; refusals are 405 (with Allow: POST), 415, 400 in that precedence; an undecodable unary body gives InvalidArgument with an error status and the application code is not reached; the JSON and protobuf encodings of a unary request are handled identically; a streaming reply that was started is data* followed by exactly one trailer frame, a refused one has no frames; JSON is not accepted for streams (obligation on the generated content types). Tied to the code by a request grammar (11 methods, 21 content types incl. parameters/case/garbage, -bin headers with valid and invalid base64, odd GRPC-Timeout values incl. empty, 11 bodies incl. JSON with unknown fields and wrong types) through HandleMethod/HandleStream with a recorder and through the Server's mux for unknown paths (404), observing status, Allow, X-GRPC-Status, the invocation counter and the reply's frame structure; recover() around every call.",
+         "Trusted: Coq kernel; go2coq for the content-type constants; mime.ParseMediaType, base64 and the protobuf/JSON codecs are oracle inputs computed with the real libraries; net/http's ResponseRecorder stands for the wire.",
+         "7/C11"),
  "C14": ("Coq theorems over tables regenerated from codes.go by a Go-AST translator + exhaustive differential/correspondence run",
          "Machine-checked proof (Coq 8.16): the code->HTTP and HTTP->code tables and the renderer guard are regenerated from /repo's source on every run and the theorems (documented table, error status for every non-OK code over all of Z, the 499 rule, recovery of every uint32 code through the %d/ParseInt/int32 round trip, OK iff 2xx for every integer status) are re-proved against them; the hand-written glue (header precedence) is tied to the code by running real server, real client and loopback end-to-end calls on all codes 0..40, boundary and random uint32 codes, and all HTTP statuses 100..599.",
          "Trusted: Coq kernel; the go2coq translator (differentially tested on every run against the real functions); the model of fmt %d / strconv.ParseInt (lib/Dec.v); net/http's handling of the status header on loopback is observed, not proved.",
